@@ -184,6 +184,61 @@ def oracle(ctx):
             if not (180.0 - z1 <= TOL_DEG):
                 ctx.violation("antipode", {"utc": t.isoformat(), "lon": slon + 180.0, "lat": -slat}, z1, "180 within 0.03 deg", site="astronomy.sun_zenith_angle")
     ctx.note("worst angular difference vs Almanac = %.4f deg" % math.degrees(worst))
+    # "scalars and arrays": arrays of times (and of coordinates: float64, float32, integer-typed whole-degree grids, 2-d)
+    cases = gen(ctx, ctx.size(240, 6000))
+    for k in range(0, len(cases) - 5, 6):
+        kind = ctx.rng.choice(["f64", "f64", "i64", "f32", "f64_2d", "scalar_coord"])
+        ctx.bump("array_kind", kind)
+        check_arrays(ctx, [c[0] for c in cases[k:k + 6]], [c[1] for c in cases[k:k + 6]], [c[2] for c in cases[k:k + 6]], kind, astronomy)
+
+
+def _coords(kind, xs):
+    if kind == "i64":
+        return np.array([round(x) for x in xs], dtype=np.int64)
+    if kind == "f32":
+        return np.array(xs, dtype=np.float32)
+    if kind == "f64_2d":
+        return np.array(xs, dtype=np.float64).reshape(2, -1)
+    return np.array(xs, dtype=np.float64)
+
+
+def check_arrays(ctx, ts, lons, lats, kind, astronomy):
+    """Array-valued times and coordinates against the Almanac reference, element by element."""
+    tarr = np.array([np.datetime64(t) for t in ts])
+    if kind == "scalar_coord":
+        alon, alat = float(lons[0]), float(lats[0])
+        vl, vt = [alon] * len(ts), [alat] * len(ts)
+    else:
+        alon, alat = _coords(kind, lons), _coords(kind, lats)
+        vl = [float(x) for x in np.asarray(alon, dtype=np.float64).ravel()]
+        vt = [float(x) for x in np.asarray(alat, dtype=np.float64).ravel()]
+        if kind == "f64_2d":
+            tarr = tarr.reshape(2, -1)
+    tol_deg = TOL_DEG + (2e-3 if kind == "f32" else 0.0)      # float32 coordinates carry 1e-5 deg of their own
+    case0 = {"utcs": [t.isoformat() for t in ts], "lons": list(map(float, lons)), "lats": list(map(float, lats)), "kind": kind}
+    n0 = len(ctx.violations)
+    ra, dec = astronomy.sun_ra_dec(tarr)
+    lam = astronomy.sun_ecliptic_longitude(tarr)
+    cz = astronomy.cos_zen(tarr, alon, alat)
+    sza = astronomy.sun_zenith_angle(tarr, alon, alat)
+    alt, az = astronomy.get_alt_az(tarr, alon, alat)
+    flat = lambda x: np.asarray(x, dtype=np.float64).ravel()
+    ra, dec, lam, cz, sza, alt, az = map(flat, (ra, dec, lam, cz, sza, alt, az))
+    for i, t in enumerate(ts):
+        ctx.count("eval_oracle_array")
+        ref = almanac(t, vl[i], vt[i])
+        zen_ref = math.pi / 2 - ref["alt"]
+        case = dict(case0, index=i)
+        checks = (("ra", angdiff(float(ra[i]), ref["ra"])), ("dec", angdiff(float(dec[i]), ref["dec"])),
+                  ("ecl_lon", angdiff(float(lam[i]), ref["lam"])), ("alt", angdiff(float(alt[i]), ref["alt"])),
+                  ("az", angdiff(float(az[i]), ref["az"]) * max(math.cos(ref["alt"]), 0.0)),
+                  ("zenith", abs(math.radians(float(sza[i])) - zen_ref)), ("cos_zen", abs(float(cz[i]) - math.cos(zen_ref))))
+        for nm, d in checks:
+            if not d <= math.radians(tol_deg):
+                ctx.violation("almanac_array_" + nm, case, d, "within %.3f deg of the Almanac value (array call, element %d)" % (tol_deg, i),
+                              site="astronomy")
+                return len(ctx.violations) - n0
+    return len(ctx.violations) - n0
 
 
 def match_known(entry, v):
@@ -193,6 +248,10 @@ def match_known(entry, v):
 def replay(ctx, case):
     from pyorbital import astronomy
     inp = case.get("input", case)
+    if "utcs" in inp:
+        n = check_arrays(ctx, [dt.datetime.fromisoformat(x) for x in inp["utcs"]], inp["lons"], inp["lats"], inp["kind"], astronomy)
+        print("array case", inp["kind"], "violations", n)
+        return 1 if n else 0
     t = dt.datetime.fromisoformat(inp["utc"])
     before = len(ctx.violations)
     check_one(ctx, t, inp["lon"], inp["lat"], astronomy)
